@@ -1,4 +1,4 @@
-import BPT.Py.Top
+import BPT.Py.Bulk
 import BPT.Generated.TiePy
 /-
   C09 — the pure-Python tree keeps the B+ tree invariants after every mutation.
@@ -129,6 +129,52 @@ theorem chain_is_leaves (s : PState K V) (hi : PInv s) :
   cases hl : leaves s.height s.root with
   | nil => rw [hl] at hne; exact absurd rfl hne
   | cons l rest => rw [hl] at hh; simp [hh, firstOf, Rust.link]
+
+/-- **bulk load**: for every capacity ≥ 4 and every item list (sorted or not, with or without repeated keys)
+    `from_sorted_items` raises nothing, yields a tree satisfying the invariants, and its contents are those of
+    assigning the items one by one to a fresh map -/
+theorem from_sorted_eq_incremental (cap : Nat) (hcap : 4 ≤ cap) (its : List (K × V)) :
+    ∃ s' s0 sInc, fromSorted cap its = some (some s') ∧ PInv s' ∧ s'.cap = cap ∧
+      (new cap : Option (PState K V)) = some s0 ∧ update s0 its = some sInc ∧ PInv sInc ∧ abs s' = abs sInc := by
+  obtain ⟨s', h1, h2, h3, h4⟩ := fromSorted_spec (K := K) (V := V) cap hcap its
+  obtain ⟨s0, h0, hinv0, habs0, _⟩ := pinv_new (K := K) (V := V) cap hcap
+  obtain ⟨sInc, g1, g2, g3, _⟩ := update_spec its s0 hinv0
+  exact ⟨s', s0, sInc, h1, h2, h4, h0, g1, g2, by rw [h3, g3, habs0]⟩
+
+/-- the fast path is taken only on the true rightmost leaf and only for a key above every key of the map -/
+theorem bulk_fast_path_sound (s : PState K V) (k : K) (v : V) (hi : PInv s) (hc : CacheOK s) :
+    ∃ s', insertSorted s k v = some s' ∧ PInv s' ∧ CacheOK s' ∧ abs s' = SMap.insert (abs s) k v :=
+  let ⟨s', h1, h2, h3, h4, _⟩ := insertSorted_spec s k v hi hc
+  ⟨s', h1, h2, h3, h4⟩
+
+namespace Legacy
+/-- some non-root branch of the tree has no key -/
+def hasEmptyBranch : (h : Nat) → Tree Int Nat h → Bool → Bool
+  | 0, _, _ => false
+  | h+1, (b : Branch Int (Tree Int Nat h)), isRoot =>
+    (!isRoot && b.keys.length == 0) || b.children.any (fun c => hasEmptyBranch h c false)
+
+def runLegacy (cfg : Cfg) (sets : List Int) (dels : List Int) : Option Bool :=
+  match (new 4 : Option (PState Int Nat)) with
+  | none => none
+  | some s0 =>
+    match sets.foldl (fun acc k => acc.bind fun s => setitem s k 0) (some s0) with
+    | none => none
+    | some s1 =>
+      match dels.foldl (fun acc k => acc.bind fun s => (delitem cfg s k).map (·.1)) (some s1) with
+      | none => none
+      | some s2 => some (hasEmptyBranch s2.height s2.root true)
+
+/-- D8 on the pre-repair model (capacity 4): after assigning 0..29 and deleting
+    13,15,20,17,29,21,3,28,27,0,16,24,7,18,1,11,23,14,2,19 a non-root branch with no key survives;
+    the repaired model keeps every branch populated on the same history -/
+theorem py_empty_branch_survives :
+    runLegacy { emptyShortcutLeafOnly := false } (List.range 30 |>.map Int.ofNat)
+      [13,15,20,17,29,21,3,28,27,0,16,24,7,18,1,11,23,14,2,19] = some true ∧
+    runLegacy Cfg.repaired (List.range 30 |>.map Int.ofNat)
+      [13,15,20,17,29,21,3,28,27,0,16,24,7,18,1,11,23,14,2,19] = some false := by
+  decide
+end Legacy
 
 /-- non-vacuity: the invariant holds of a concrete two-level tree -/
 example : ∃ s : PState Int Nat, (new 4 : Option (PState Int Nat)) = some s ∧ PInv s := by
